@@ -16,32 +16,48 @@ VARIABLES l, cf,
           fec,    \* fec[flow]: last FEC sequence id seen on the flow (relative to its first)
           pf,     \* for the datagram line just consumed: the flow's previous FEC id (-1: none yet, -2: not applicable)
           en,     \* for the read line just consumed: the number of bytes that Read had to return (-1: not applicable)
-          rem     \* rem[c]: message mode: bytes of the message that reader c is in the middle of (0: at a message boundary)
-ovars == <<l, cf, exp, rdoff, fec, pf, en, rem>>
+          rem,    \* rem[c]: message mode: bytes of the message that reader c is in the middle of (0: at a message boundary)
+          ld,     \* ld[flow]: virtual time of the flow's latest FEC data packet (the encoder's continuity clock)
+          due,    \* due[flow]: parity packets the flow's encoder still owes for the group it has just completed
+          pd      \* for the datagram line just consumed: what the flow owed before it (0: nothing / not applicable)
+ovars == <<l, cf, exp, rdoff, fec, pf, en, rem, ld, due, pd>>
 Conns == {"cli", "srv"}
 OtherEnd(c) == IF c = "cli" THEN "srv" ELSE "cli"
 
 Min(a, b) == IF a < b THEN a ELSE b
+ContinuityMs == 500     \* sess.go maxFECEncodeLatency: the gap between two data packets above which a group gets no parity
 (* exp[c] is a sequence of [left, mss]: a Write of n bytes is cut into messages of at most mss bytes *)
 NextMsg(q) == Min(q[1].left, q[1].mss)
 PopMsg(q) == IF q[1].left <= q[1].mss THEN Tail(q) ELSE <<[q[1] EXCEPT !.left = @ - q[1].mss]>> \o Tail(q)
 
 Init == /\ l = 1
-        /\ cf = [cipher |-> "nil", d |-> 0, p |-> 0, stream |-> TRUE, closemid |-> FALSE, faulty |-> FALSE, clean |-> FALSE, nodelay |-> 0]
+        /\ cf = [cipher |-> "nil", d |-> 0, p |-> 0, stream |-> TRUE, closemid |-> FALSE, faulty |-> FALSE, clean |-> FALSE, nodelay |-> 0,
+                 paced |-> FALSE]
         /\ exp = [c \in Conns |-> <<>>] /\ rdoff = [c \in Conns |-> 0]
         /\ fec = [f \in {} |-> 0] /\ pf = -2 /\ en = -1 /\ rem = [c \in Conns |-> 0]
+        /\ ld = [f \in {} |-> 0] /\ due = [f \in {} |-> 0] /\ pd = 0
 
 Next ==
   /\ l <= Len(Trace) /\ l' = l + 1
   /\ LET t == Trace[l] IN
      IF t.ev = "reset"
        THEN /\ cf' = [cipher |-> t.cfg.cipher, d |-> t.cfg.d, p |-> t.cfg.p, stream |-> t.cfg.stream, closemid |-> t.closemid,
-                      faulty |-> t.faulty, clean |-> t.clean, nodelay |-> t.cfg.nodelay]
+                      faulty |-> t.faulty, clean |-> t.clean, nodelay |-> t.cfg.nodelay, paced |-> t.paced]
             /\ exp' = [c \in Conns |-> <<>>] /\ rdoff' = [c \in Conns |-> 0] /\ fec' = [f \in {} |-> 0] /\ pf' = -2 /\ en' = -1
             /\ rem' = [c \in Conns |-> 0]
+            /\ ld' = [f \in {} |-> 0] /\ due' = [f \in {} |-> 0] /\ pd' = 0
        ELSE
        LET isfec == t.ev = "dg" /\ ~t.injected /\ t.fecon /\ t.cryptok /\ t.fectype \in {241, 242}
            flow  == <<t.src, t.dst>>
+           (* the encoder's continuity rule (fec.go, encode): the data packet that completes a group is followed by the group's  *)
+           (* parity packets iff it comes less than 500 ms after the encoder's previous DATA packet; nothing else moves that     *)
+           (* clock, and data + parity of one group are handed to the transport together. "steady": the harness knows that no    *)
+           (* SetMtu touched the flow since the group began (a parity packet above a smaller new MTU is rightly withheld).       *)
+           fecdg == t.ev = "dg" /\ ~t.injected /\ t.fecon /\ t.cryptok /\ t.fectype \in {241, 242, 243}
+           owed  == IF fecdg /\ flow \in DOMAIN due THEN due[flow] ELSE 0
+           closes == /\ fecdg /\ t.fectype = 241 /\ t.fecpos = t.fd - 1 /\ t.fp > 0 /\ t.steady
+                     /\ ~cf.paced /\ ~cf.closemid
+                     /\ flow \in DOMAIN ld /\ t.t - ld[flow] < ContinuityMs - 2
            (* the sequential meaning of Read in message mode: inside a message it returns min(buffer, rest of the message); at a *)
            (* boundary it takes the next message (a Write is cut into messages of at most one MSS) and returns min(buffer, its   *)
            (* length), the rest stays for the following Reads -- a Read never spans two messages                                *)
@@ -60,6 +76,14 @@ Next ==
                  ELSE exp
        /\ rdoff' = IF t.ev = "read" THEN [rdoff EXCEPT ![t.conn] = @ + t.n] ELSE rdoff
        /\ fec' = IF isfec THEN [x \in DOMAIN fec \cup {flow} |-> IF x = flow THEN t.fecseq ELSE fec[x]] ELSE fec
+       /\ pd' = owed
+       /\ ld' = IF fecdg /\ t.fectype = 241 THEN [x \in DOMAIN ld \cup {flow} |-> IF x = flow THEN t.t ELSE ld[x]] ELSE ld
+       /\ due' = IF ~fecdg THEN due
+                 ELSE [x \in DOMAIN due \cup {flow} |->
+                         IF x # flow THEN due[x]
+                         ELSE IF closes THEN t.fp
+                         ELSE IF t.fectype = 242 /\ owed > 0 THEN owed - 1
+                         ELSE 0]
 Spec == Init /\ [][Next]_ovars
 
 Obs == Trace[l - 1]
@@ -120,6 +144,9 @@ C10_LenWithinMtu == Genuine /\ Obs.mtu > 0 => Obs.len <= Obs.mtu /\ Obs.len > 0
 (* ---- C19: out-of-band messages ---- *)
 C19_IntactOrAbsent == Is("oobrecv") => Obs.known
 C19_RefusalRule == Is("oobsend") => (Obs.refused <=> (Obs.len > Obs.max \/ cf.d = 0))
+(* "never weakens its FEC protection": a group whose data packets follow each other within the continuity window gets all its *)
+(* parity packets, right behind its last data packet -- whatever out-of-band traffic is interleaved with the data           *)
+C19_FecProtectionKept == Genuine /\ Obs.cryptok /\ Obs.fecon /\ pd > 0 => Obs.fectype = 242 /\ Obs.fecpos = Obs.fd + Obs.fp - pd
 C19_OOBFrame == Genuine /\ Obs.cryptok /\ Obs.fectype = 243 => Obs.sizeok /\ Obs.convok /\ Obs.ooblen >= 0
 
 (* ---- C15: teardown ---- *)
